@@ -308,6 +308,15 @@ func (in *inst) accesses(nodes ...ast.Node) (out []access, extra bool) {
 				}
 			case *ast.SendStmt:
 				extra = true
+			case *ast.CallExpr:
+				// writes through a reference: the destination of copy/append/binary.Put*, any
+				// re-sliced shared buffer handed to a call (buf[:0], buf[:cap(buf)] - the scratch
+				// buffer idiom), and mutating methods of a shared bytes.Buffer
+				if w := in.writtenThrough(v); len(w) > 0 {
+					for _, e := range w {
+						markLHS(e)
+					}
+				}
 			}
 			return true
 		})
@@ -348,6 +357,43 @@ func (in *inst) accesses(nodes ...ast.Node) (out []access, extra bool) {
 		})
 	}
 	return out, extra
+}
+
+// writtenThrough returns the argument/receiver expressions a call may write through.
+func (in *inst) writtenThrough(c *ast.CallExpr) (out []ast.Expr) {
+	name := ""
+	switch f := c.Fun.(type) {
+	case *ast.Ident:
+		name = f.Name
+	case *ast.SelectorExpr:
+		name = f.Sel.Name
+		// mutating methods on a bytes.Buffer value that is shared state
+		if tv, ok := in.info.Types[f.X]; ok && tv.Type != nil {
+			t := tv.Type
+			if p, isPtr := t.(*types.Pointer); isPtr {
+				t = p.Elem()
+			}
+			if n, isNamed := t.(*types.Named); isNamed && n.Obj().Pkg() != nil && n.Obj().Pkg().Path() == "bytes" && n.Obj().Name() == "Buffer" {
+				switch name {
+				case "Len", "Bytes", "String", "Cap":
+				default:
+					out = append(out, f.X)
+				}
+			}
+		}
+	}
+	if len(c.Args) > 0 {
+		switch name {
+		case "copy", "append", "PutUvarint", "PutVarint", "PutUint16", "PutUint32", "PutUint64":
+			out = append(out, c.Args[0])
+		}
+	}
+	for _, a := range c.Args {
+		if se, ok := a.(*ast.SliceExpr); ok {
+			out = append(out, se.X)
+		}
+	}
+	return out
 }
 
 func (in *inst) isGlobal(id *ast.Ident) bool {
